@@ -19,6 +19,8 @@ namespace sim
    using io_top = io::g_chunked;
 #elif IO_PROG == 6
    using io_top = io::g_states;
+#elif IO_PROG == 8
+   using io_top = io::g_hooks;
 #else
    using io_top = io::g_mustif;
 #endif
@@ -38,6 +40,10 @@ namespace sim
       return pegtl::parse< io_top, sim_action, sim_control >( in, value );
 #elif IO_PROG == 7
       return pegtl::parse< io_top, sim_action, io::mi_control >( in, root );
+#elif IO_PROG == 8
+      io::tag_a ta;
+      io::tag_b tb;
+      return pegtl::parse< io_top, sim_action, sim_control >( in, ta, root, tb );
 #else
       return pegtl::parse< io_top, sim_action, sim_control >( in, root );
 #endif
